@@ -309,6 +309,7 @@ pub struct GateSim<'a> {
     pub ram_reads_x: u64,
     pub ram_writes: u64,
     pub ram_masked_writes: u64,
+    pub ram_collisions: u64,
 }
 
 fn port_name(p: &veryl_synthesizer::ir::GatePort) -> String {
@@ -354,6 +355,7 @@ impl<'a> GateSim<'a> {
             ram_reads_x: 0,
             ram_writes: 0,
             ram_masked_writes: 0,
+            ram_collisions: 0,
         })
     }
 
@@ -554,9 +556,13 @@ impl<'a> GateSim<'a> {
                 }
             }
         }
-        // write ports in order (a later port wins on the same word)
+        // Write ports.  Two ports that (may) address the same word at the same
+        // edge: the documentation defines no priority between ports and no
+        // meaning for the retained bits of a masked port in that situation, so
+        // the whole word becomes X.
         for (ri, r) in m.ram_blocks.iter().enumerate() {
             let w = r.width;
+            let mut touched = vec![false; r.depth];
             for wp in &r.write_ports {
                 let en = self.val[wp.enable as usize];
                 if en == 0 {
@@ -588,16 +594,24 @@ impl<'a> GateSim<'a> {
                 loop {
                     let aa = a | sub;
                     if aa < r.depth {
-                        for b in 0..w {
-                            let mb = mask.as_ref().map(|k| k[b]).unwrap_or(1);
-                            if mb == 0 {
-                                continue;
+                        if touched[aa] {
+                            for b in 0..w {
+                                self.ram[ri][aa * w + b] = X;
                             }
-                            let cell = &mut self.ram[ri][aa * w + b];
-                            if certain && mb == 1 {
-                                *cell = data[b];
-                            } else {
-                                *cell = merge(*cell, data[b]);
+                            self.ram_collisions += 1;
+                        } else {
+                            touched[aa] = true;
+                            for b in 0..w {
+                                let mb = mask.as_ref().map(|k| k[b]).unwrap_or(1);
+                                if mb == 0 {
+                                    continue;
+                                }
+                                let cell = &mut self.ram[ri][aa * w + b];
+                                if certain && mb == 1 {
+                                    *cell = data[b];
+                                } else {
+                                    *cell = merge(*cell, data[b]);
+                                }
                             }
                         }
                     } else {
